@@ -22,7 +22,19 @@ def t_c19():
     assert c19.replay_behaviour(b4) is not None, 'dropped operation accepted'
 
 
-TESTS = [t_c19]
+def t_c15():
+    from .props import c15
+    good = {'ok': True, 'subset': c15.proj_slice(0),
+            'comps': [{'sep': '/', 'id': list('001001'), 'slice': c15.proj_slice(slice(None, 2, None))}]}
+    s = '@[0]/001001[:2]'
+    assert c15.classify(s, good, c15.observe(s)) is None, 'good parse rejected'
+    bad = {'ok': True, 'subset': c15.proj_slice(1), 'comps': good['comps']}
+    assert c15.classify(s, bad, c15.observe(s)) is not None, 'corrupted subset accepted'
+    assert c15.classify('/001001[', {'ok': True, 'subset': good['subset'], 'comps': []}, c15.observe('/001001[')) is not None
+    assert c15.classify('/001001', {'ok': False}, c15.observe('/001001')) is not None, 'verdict flip accepted'
+
+
+TESTS = [t_c19, t_c15]
 
 
 def main():
